@@ -14,7 +14,8 @@ SPEC = dict(
                 "Swarm.DialPeer / Host.NewStream / Host.Connect / Conn.NewStream with every subset of {allow-limited, force-direct, "
                 "no-dial}, own deadlines, dial-peer timeouts and independent cancellation instants while 1-2 environment tasks make B "
                 "reachable / unreachable, create direct connections in both directions, close direct / relayed connections on either "
-                "side, flap a direct connection or close it from inside A's Connected notification; the relay is limited, short-lived "
+                "side, flap a direct connection, close it from inside A's Connected notification or let B come back through the relay "
+                "(inbound limited connection on A); the relay is limited, short-lived "
                 "or unlimited. Layer B (20%): A and B behind simulated stateful firewalls (filtered / open / symmetric), real hole "
                 "punching services with the public tracer, optional link latency; the same callers on A wait for the hole punch. "
                 "History oracles over stamped invocations, notifications, gater admissions, transport dials and tracer events; "
@@ -36,13 +37,13 @@ SPEC = dict(
     rule=("one run = one tape: stratum (layer A / B), relay limits (default, 15 s, unlimited), security (insecure / noise), initial "
           "connections (limited only, none, direct only, both), B's initial reachability or the firewall modes of A and B, link "
           "latencies, direct-dial timeout, whether A knows B's direct address, whether relay addresses are advertised for hole "
-          "punching, service wiring, 1-4 callers x 1-3 calls (API, option set, pause, deadline, dial-peer timeout, cancellation "
+          "punching, service wiring, whether A holds a reservation too, 1-4 callers x 1-3 calls (API, option set, pause, deadline, dial-peer timeout, cancellation "
           "instant), 0-2 environment tasks x 1-6 steps, sampling pace, and the schedule; non-trivial = at least one call was made, "
           "at least one quiescent reading was accepted and A saw at least one connection to B; distinct = distinct (scheduler "
           "decision hash, connection list, per-call outcome, Connectedness readings, event sequence, hole-punch event sequence)"),
     probes=["waiter-released-by-direct-conn", "waiter-cancelled-or-timed-out", "direct-conn-vanished-before-waiter-woke",
             "stream-on-limited-conn-allowed", "force-direct-succeeded", "quiescent-limited-only", "quiescent-both",
-            "hole-punch-attempted", "hole-punch-succeeded", "hole-punch-failed", "holepunch-direct-dial-succeeded",
+            "inbound-limited-conn-on-A", "hole-punch-attempted", "hole-punch-succeeded", "hole-punch-failed", "holepunch-direct-dial-succeeded",
             "holepunch-direct-dial-failed", "holepunch-protocol-error", "dcutr-stream-on-direct-conn"],
     real=["ALL of the following run as tasks of the seeded scheduler (instrumented)", "swarm (conns, waiter list, dial worker, dial sync, "
           "connectedness, emitter)", "basic host (NewStream, Connect), identify", "circuitv2 relay service and client transport "
